@@ -38,7 +38,10 @@ def main(argv):
         obs = res["obligations"] + res["covers"]
         summ = discharge(res["obligations"])
         discharge(res["covers"], use_cvc5=False, z3_timeout=3000)
-        bad = [o for o in obs if (o.expect == "unsat" and o.verdict != "unsat") or (o.expect == "sat" and o.verdict == "unsat")]
+        canaries = [o for o in obs if o.kind == "canary"]
+        bad = [o for o in obs if (o.expect == "unsat" and o.verdict != "unsat") or (o.kind == "cover" and o.verdict == "unsat")]
+        if canaries and all(o.verdict == "unsat" for o in canaries):
+            bad.append(canaries[0])
         print(f"== {k}: {res['status']} {res['reason']} obligations={len(res['obligations'])} covers={len(res['covers'])} "
               f"failed={len(bad)} gen={res['time']:.2f}s solve={summ['wall']:.2f}s paths={res['paths']} checks={res.get('solver_checks')}")
         for o in obs:
